@@ -10,6 +10,13 @@ M16 — source-location tables and error traces.
 * `Display for VmError`: kind, `[traceback]`, the failure location, then the trace reversed; the
   `file:line` column is padded to the widest entry.
 
+Input contract: `build` is applied to the FINAL line list, i.e. the optimized assembly after
+`expand_immediates` (translate_bytecode.rs `translate`: optimize → gather_constants → expand_immediates →
+create_source_location_tables → remove_labels_and_constants).  The tables index instructions by
+position, so the number of `instr` lines given to `build` must equal the compiled program's instruction
+count; the correspondence checks exactly that, and a program with more than 65536 constants makes the
+difference visible.
+
 The VM increments `pc` before executing an instruction, so the `pc` seen by `make_error` and the
 return address stored by `Call`/`CallFuncObj` are both "index of the instruction + 1".
 No imports: linked into the model driver.
